@@ -951,9 +951,10 @@ class ServerTls(Server):
         for ca, cx in self.cxes.items():
             try:
                 done = cx.serviceHandshake()
-            except Exception:
-                del self.cxes[ca]  # handshake already closed the socket, drop the dead entry
-                raise
+            except (ssl.SSLError, OSError) as ex:  # handshake failed and closed the socket
+                console.terse("Dropped connection from {0}, TLS handshake failed: {1}\n".format(ca, ex))
+                del self.cxes[ca]  # give up on this one only
+                continue
             if done:
                 if ca in self.ixes and self.ixes[ca] is not cx:
                     self.shutdownIx(ca)
